@@ -928,6 +928,16 @@ var blockRules = map[BlockKind]blockRule{
 		},
 		onClose: func(source []byte, block *Block) []*Block {
 			// "Blank lines preceding or following an indented code block are not included in it."
+			if n := len(block.inlineChildren); n >= 2 {
+				// A last line without a line ending is followed by a synthetic, empty line break.
+				// If that line is blank, the line break goes with it.
+				last, prev := block.inlineChildren[n-1], block.inlineChildren[n-2]
+				if last.Kind() == SoftLineBreakKind && last.Span().Len() == 0 &&
+					prev.Kind() == TextKind && isBlankLine(spanSlice(source, prev.Span())) {
+					block.inlineChildren[n-1] = nil
+					block.inlineChildren = block.inlineChildren[: n-1 : n-1]
+				}
+			}
 			for i := block.ChildCount() - 1; i >= 0; i-- {
 				child := block.inlineChildren[i]
 				if child.Kind() != TextKind || !isBlankLine(spanSlice(source, child.Span())) {
